@@ -39,6 +39,7 @@ def tell [Add α] [Mul α] (s : State α) (k : Nat) (v : α) : State α :=
 
 /-- `tell_pending(n)` -/
 def tellPending (s : State α) (k : Nat) : State α :=
+  if hasKey k s.data then s else
   if k ∈ s.pending then s else { s with pending := k :: s.pending }
 
 def removeUnfinished (s : State α) : State α := { s with pending := [] }
